@@ -54,10 +54,14 @@ def valueOK (bt : Nat) (isBool : Bool) (v : Value) : Bool :=
   let (es, _) := elemsOf v
   !es.isEmpty && es.all (scalarOK bt isBool)
 
+/-- an array with exactly one element: for a field without a profile entry (unknown field, developer field) the cell has
+one piece and is read as a scalar — and the decoder too makes a scalar of a one-element payload -/
+def oneElemArray (v : Value) : Bool := (elemsOf v).2 && (elemsOf v).1.length == 1
+
 def fieldOK (m : Message) (f : Field) : Bool :=
   match pfield m.num (fieldNumOf f) with
   | some p => fieldBtOf f == p.bt && valueOK p.bt p.isBool f.value && (elemsOf f.value).2 == p.array
-  | none => valueOK (fieldBtOf f) false f.value
+  | none => valueOK (fieldBtOf f) false f.value && !oneElemArray f.value
 
 /-- the field descriptions of ONE file, in order -/
 def descsOf (file : List Message) : List Desc := (file.filter (·.num == mnFieldDescription)).map descOf
@@ -67,12 +71,13 @@ the name of a native field of the message nor an "unknown…" name; values of th
 def devsOK (file : List Message) : Bool :=
   let ds := descsOf file
   ds.all (fun d => !d.name.isEmpty && !isPrefixOf' unknownTxt d.name && commasIn d.name == 0 && commasIn d.units == 0 &&
-    d.name.all keepByte && d.units.all keepByte && d.scale == 255 && d.offset == 127) &&   -- `|` joins the parts of a name
+    d.name.all keepByte && d.units.all keepByte) &&   -- `|` joins the parts of a name
   (ds.map (·.name)).eraseDups.length == ds.length &&
   (ds.map fun d => (d.devIdx, d.num)).eraseDups.length == ds.length &&
   file.all fun m => m.devFields.all fun dv =>
     match findDesc ds dv.devIdx dv.num with
-    | some d => (lookupFieldNum m.num d.name).isNone && valueOK d.bt false dv.value && !(d.units == degreesTxt && d.bt == btSint32)
+    | some d => (lookupFieldNum m.num d.name).isNone && valueOK d.bt false dv.value && !oneElemArray dv.value &&
+        !(d.units == degreesTxt && d.bt == btSint32)
     | none => false
 
 /-- the property's own condition: no field written in the file (not flagged as expanded) is the expansion target of a
@@ -120,6 +125,16 @@ def hasPayloadNaN : List (List Message) → Bool := anyValue fun v =>
     | .float32 b => isNaN32 b && b != 0x7FC00000
     | .float64 b => isNaN64 b && b != canonNaN64
     | _ => false
+
+/-- KF-C19-6: a developer field of a float base type whose (most recent) description carries a scale or an offset: the
+writer prints developer field values as they are, the reader un-scales every cell whose text contains a '.' -/
+def hasScaledFloatDev (files : List (List Message)) : Bool :=
+  files.any fun file =>
+    let ds := descsOf file
+    file.any fun m => m.devFields.any fun dv =>
+      match findDesc ds dv.devIdx dv.num with
+      | some d => (d.bt == btFloat32 || d.bt == btFloat64) && (d.scale != 255 || d.offset != 127)
+      | none => false
 
 /-- KF-C19-4: a message number of the manufacturer-range marks: `MesgNum.String()` names it but the reader's lookup
 leaves numbers ≥ MfgRangeMin out and the name has no digits -/
